@@ -31,7 +31,9 @@ RULE = ('Histories of <= 14 steps over projects of 2-4 translation units and '
         'Rules: modify source, modify header, add a header and include it, '
         'stop including and delete a header, rename a header and update its '
         'includers, break / repair a source (compile error), build, clean.  '
-        'Non-trivial: a header edit after a successful build, or the '
+        'A scale task runs a fixed history (build, clean, build, header '
+        'edit, build, source edit, build, clean) on projects of 33-257 '
+        'units.  Non-trivial: a header edit after a successful build, or the '
         'deletion / rename of a header that some object\'s recorded '
         'dependencies still mention; distinct = backend + abstracted rule '
         'sequence.')
@@ -587,8 +589,44 @@ def replay(task, case, rec):
         m.ctx.__exit__(None, None, None)
 
 
+SCALE_SIZES = [33, 51, 65, 101, 129, 257]
+
+
+def _run_scale(rec, seed, budget, shard, nshards, sizes):
+    """The same model on projects with many translation units (anything
+    that batches, folds or truncates long lists shows only here)."""
+    jobs = [(b, n) for n in sizes for b in ('make', 'ninja')]
+    for k, (backend, n) in enumerate(jobs):
+        if k % nshards != shard:
+            continue
+        tus = ['t{}.c'.format(i) for i in range(n)]
+        case = {'backend': backend, 'compiler': 'gccw', 'history': [
+            ['setup', tus, {'h1.h': [], 'inc/h4.h': ['h1.h']},
+             {t: (['inc/h4.h'] if i % 2 else ['h1.h'])
+              for i, t in enumerate(tus)},
+             {'pch': None, 'objnames': ['obj{}'.format(i)
+                                        for i in range(n)]}],
+            ['build'], ['clean'], ['build'], ['modify_header', 'h1.h'],
+            ['build'], ['modify_source', tus[n // 2]], ['build'], ['clean']]}
+        rec.case({backend, 'units={}'.format(n)},
+                 nontrivial=[backend, n], sample={'backend': backend,
+                                                  'units': n})
+        try:
+            replay('scale', case, rec)
+        except Violation as v:
+            rec.fail('scale/' + v.key, '{} units: {}'.format(n, v.message),
+                     case)
+
+
 def tasks(tier):
-    return [Task('inc-make', _run, quick=16 * 3, thorough=16 * 60,
+    try:
+        seed = int(os.environ.get('VERIF_SEED') or '1')
+    except ValueError:
+        seed = 1
+    sizes = SCALE_SIZES if tier != 'quick' else \
+        sorted({51, [33, 65, 101, 129][seed % 4]})
+    return [Task('scale', _run_scale, quick=1, thorough=1, sizes=sizes),
+            Task('inc-make', _run, quick=16 * 3, thorough=16 * 60,
                  backend='make'),
             Task('inc-make-clang', _run, quick=16 * 2, thorough=16 * 40,
                  backend='make', compiler='clangw'),
